@@ -328,9 +328,20 @@ def evaluate(ops, config):
         if kind == "capture":
             before = len(file.getvalue())
             twin_before = len(twin_file.getvalue())
-            with console.capture() as cap:
-                for inner in op[1]:
-                    apply_output(console, inner)
+            # every other capture block is left by an exception (which must propagate and change nothing else)
+            leave_by_exception = (len(op[1]) + len(str(op[1]))) % 2 == 1
+
+            class _Leave(Exception):
+                pass
+
+            try:
+                with console.capture() as cap:
+                    for inner in op[1]:
+                        apply_output(console, inner)
+                    if leave_by_exception:
+                        raise _Leave()
+            except _Leave:
+                pass
             for inner in op[1]:
                 apply_output(twin, inner)
             evaluated.append("c15.capture_no_file")
@@ -339,7 +350,10 @@ def evaluate(ops, config):
                      file.getvalue()[before:])
             evaluated.append("c15.capture_exact")
             want = twin_file.getvalue()[twin_before:]
-            got = cap.get()
+            try:
+                got = cap.get()
+            except Exception as e:  # noqa
+                got = "Capture.get() raised %s" % type(e).__name__
             if _normalise_link_ids(got) != _normalise_link_ids(want):
                 fail("c15.capture_exact", "Capture.get() differs from what would have been written", want, got)
             if want:
